@@ -23,7 +23,7 @@ import (
 var jsonByteAlphabet = []string{"{", "}", "[", "]", `"`, ":", ",", "a", "1", "-", ".", "e", `\`, " ",
 	"null", "true", `"left"`, `"operator"`, `"right"`, `"min"`, `"max"`}
 
-var jsonValues = []string{`"min"`, `"max"`, `"left"`, `"\"min"`, `"operator"`, `""`, `"a"`, `"*"`, `"a*"`, `"/r/"`, `"/"`, `"/abc/"`, `"1,2"`, `"a\u0000"`, `0`, `1`, `-1`, `1.5`, `1e400`, `true`, `null`,
+var jsonValues = []string{`"min"`, `"max"`, `"left"`, `"\"min"`, `"operator"`, `""`, `"a"`, `"*"`, `"a*"`, `"/r/"`, `"/"`, `"/abc/"`, `"1,2"`, `"it's"`, `["it's"]`, `"a\u0000"`, `0`, `1`, `-1`, `1.5`, `1e400`, `true`, `null`,
 	`[]`, `["a"]`, `[1,"b"]`, `[[1]]`, `[{"left":"a","operator":"LITERAL"}]`, `{}`}
 
 var jsonOps = []string{"AND", "OR", "EQUALS", "LIKE", "NOT", "RANGE", "MUST", "MUST_NOT", "BOOST", "FUZZY", "LITERAL", "WILD", "REGEXP",
@@ -32,7 +32,7 @@ var jsonOps = []string{"AND", "OR", "EQUALS", "LIKE", "NOT", "RANGE", "MUST", "M
 var jsonExtras = []string{``, `"distance":2`, `"distance":"x"`, `"distance":-1`, `"power":2.5`, `"power":"x"`, `"power":-1`, `"extra":1`, `"boundaries":{"min":1,"max":2}`}
 
 func jsonBoundaries() []string {
-	vals := []string{"\x00missing", `1`, `"a"`, `"*"`, `""`, `1.5`, `null`, `{"left":"a","operator":"NOT"}`, `[1]`}
+	vals := []string{"\x00missing", `1`, `"a"`, `"*"`, `""`, `1.5`, `null`, `{"left":"a","operator":"NOT"}`, `[1]`, `"it's"`, `["it's","b"]`}
 	var out []string
 	for _, mn := range vals {
 		for _, mx := range vals {
@@ -336,8 +336,9 @@ func c13DangerousCores() []string {
 
 func init() {
 	core.Register(&core.Check{
-		ID:    "C13",
-		Title: "Decoding untrusted JSON is safe, and validation guards rendering",
+		ID:          "C13",
+		OwnsCrashes: true,
+		Title:       "Decoding untrusted JSON is safe, and validation guards rendering",
 		Units: func(tier string) []core.Unit {
 			l := 4
 			if tier == "thorough" {
@@ -437,7 +438,7 @@ func init() {
 		},
 		Eval:   c13Eval,
 		Shrink: c13Shrink,
-		Rule: "BYTES over a JSON alphabet (punctuation, letters, digits and the schema's key words as single symbols) to length L; JSON(1): every document {left,operator,right,+extras} over 22 leaf values x 22 operator names x (values ∪ 243 boundary objects); " +
+		Rule: "BYTES over a JSON alphabet (punctuation, letters, digits and the schema's key words as single symbols) to length L; JSON(1): every document {left,operator,right,+extras} over 29 leaf values (27 + absent, both sides) x 22 operator names x (values ∪ 363 boundary objects); " +
 			"DEEP: every depth-1 document that fails Validate and would make an operation panic, buried under 2..1025 levels of four wrappers; JSON(2): one child is every representative of a decoded shape signature (operator, dynamic types, string classes, render outcome; recomputed from the implementation on every run), the other every plain value and every coarse-signature representative; non-trivial = decodes and validates; distinct = distinct shape signatures of validated documents",
 		Assumptions: []string{"depth-2 children are abstracted to shape signatures (operator, dynamic types, string classes the code branches on); depth 1 is exhaustive without abstraction"},
 		Bounds: func(tier string) map[string]any {
